@@ -245,6 +245,23 @@ def run(ctx):
             total += tie["cases"]; bad += b; per[v]["costs_float_tie"] = tie
             ptie, b, pdiffs = producer_tie(ctx, v, s + 87, 60)
             total += ptie["cases"]; bad += b; per[v]["costs_producer_tie"] = ptie; tdiffs += pdiffs
+    # finding F31 (known): a circuit WITHOUT ANY FIXED CELL whose initial star system has a right-hand side that cancels to rounding noise
+    # (pin offsets summing to zero) is singular AND inconsistent: the conjugate gradient returns NaN, which is then converted to an integer.
+    # Matched only for an FL case with no fixed cell that dies on a NaN -> integer conversion; any other death is a violation.
+    def no_fixed_cell(line):
+        try:
+            v = [int(x) for x in line.split()[1:]]
+            k = 1 + 5 * v[0]
+            nc = v[k]; k += 1
+            return nc > 0 and all(v[k + 8 * c + 6] == 0 for c in range(nc))
+        except (ValueError, IndexError):
+            return False
+    kept = []
+    for b in bad:
+        if b[0].startswith("FL ") and "nan is outside the range of representable values" in b[1] and no_fixed_cell(b[0]) and ctx.known_finding("F31"):
+            continue
+        kept.append(b)
+    bad = kept
     for b in bad[:3]:
         l, i, why = b[:3]
         ctx.violation("/repo violates C07: " + why, {"case": l, "implementation_output": i, "why": why,
@@ -304,4 +321,13 @@ def replay(ctx, path):
     h = common.build_harness(name, variant)
     impl, _, _ = common.run_both([h, "run"], None, [case], timeout=600)
     print("case:", case); print("impl (%s):" % variant, impl[0])
+    if case.startswith("FL ") and "nan is outside the range of representable values" in impl[0]:
+        try:
+            v = [int(x) for x in case.split()[1:]]
+            k = 1 + 5 * v[0]; nc = v[k]; k += 1
+            if nc > 0 and all(v[k + 8 * c + 6] == 0 for c in range(nc)) and ctx.known_finding("F31"):
+                print("matched to known finding F31 (no fixed cell, NaN from the initial star solve converted to an integer)")
+                return 0
+        except (ValueError, IndexError):
+            pass
     return 1 if (impl[0].startswith("DIED") or "ABORT" in impl[0] or "SEGV" in impl[0] or impl[0] == "<missing>") else 0
